@@ -1,5 +1,5 @@
 """C28 Path patterns match per the documented glob semantics."""
-import json, os
+import json, os, re, threading
 import verif
 
 
@@ -30,7 +30,33 @@ def diagnose(ctx, bad_recs):
     return exp
 
 
+def design(ctx, box):
+    """Design run: the transcription of match/childMatch/list refines the declarative model on a bounded
+    universe, children-may-match is sound, and the three negative twins are refuted."""
+    try:
+        res = ctx.tlc("Fn_GlobDesign", workers=1, deadlock=False, timeout=1500, name="design",
+                      defines={"MaxParts": ctx.pick("3", "4"), "MaxDepth": "4", "ListDepth": ctx.pick("2", "3"), "ListTriples": ctx.pick("FALSE", "TRUE")})
+        got = dict(re.findall(r'<<"(\w+)", (TRUE|FALSE)>>', res["out"]))
+        want = {"RefinesMatch": "TRUE", "ChildSound": "TRUE", "RefinesList": "TRUE", "ArrOK": "TRUE",
+                "TwinMatch": "FALSE", "TwinChild": "FALSE", "TwinList": "FALSE"}
+        if got != want:
+            raise verif.MachineryError("Fn_GlobDesign: lemmas/twins evaluate to %s, expected %s" % (got, want))
+        box["sizes"] = re.findall(r'<<"Sizes", (\d+), (\d+)>>', res["out"])[-1]
+    except Exception as e:       # re-raised in the main thread
+        box["error"] = e
+
+
 def run(ctx):
+    box = {}
+    th = threading.Thread(target=design, args=(ctx, box))
+    th.start()
+    try:
+        return run_conformance(ctx, box, th)
+    finally:
+        th.join()
+
+
+def run_conformance(ctx, box, th):
     out = ctx.go_test("internal/filter", "^TestVerif_C28$", timeout=1700)
     n, bad, lines = ctx.check_records("Fn_Glob", os.path.join(out, "recs.ndjson"), shard=ctx.pick(420, 1100), timeout=1500)
     bad = bad[:150]
@@ -72,6 +98,9 @@ def run(ctx):
                                              json.dumps(dev)[:400], (" child-unsound " + json.dumps(child)[:300]) if child else "",
                                              " err=%s panic=%s %s valerr=%s" % (r["err"], r["panic"], r.get("panicv", ""), r["valerr"])), small)
     ctx.violations.sort(key=lambda v: v["key"] == "glob/multi-doublestar-missed-match")   # report other classes first
+    th.join()
+    if "error" in box:
+        raise box["error"]
     res = ctx.go_results[-1]
     samples = []
     for l in (lines[0], lines[len(lines) // 2], lines[-1]):
@@ -80,7 +109,10 @@ def run(ctx):
                         "matched_paths": len(r["l"]), "first_matched": r["l"][:5], "child_may_match": len(r["lc"])})
     cov = {"evaluations": n, "distinct_nontrivial": res["distinct_nontrivial"], "rule": res["rule"], "samples": samples,
            "records_checked_by_tlc": n, "records_rejected": len(bad), "counters": res.get("counters", {}),
-           "exhaustive": ctx.thorough()}
+           "exhaustive": ctx.thorough(),
+           "design_run": {"pattern_path_pairs_checked": int(box["sizes"][0]), "list_path_pairs_checked": int(box["sizes"][1]),
+                          "lemmas": ["RefinesMatch", "ChildSound", "RefinesList", "ArrOK"],
+                          "negative_twins_refuted": ["TwinMatch", "TwinChild", "TwinList"]}}
     return verif.finish(ctx, "exploration", cov,
                         ["oracle = Fn_Glob.tla, written from doc/040_backup.rst and the filepath.Match documentation; TLC evaluates RecOK on every record",
                          "the Go driver composes the pattern text from [neg, abs, components] (with the equivalent spellings trailing '/', '//', './', '/.') and the spec judges the structured form",
